@@ -6,6 +6,7 @@ import Driver.TestGen
 import Driver.Cli
 import Driver.GL
 import Driver.Deps
+import Driver.San
 
 def main (args : List String) : IO UInt32 := do
   match args with
@@ -20,6 +21,7 @@ def main (args : List String) : IO UInt32 := do
   | ["tg"] => Driver.lineLoop Driver.TestGen.step (); return 0
   | ["cli"] => Driver.lineLoop Driver.Cli.step (); return 0
   | ["gl"] => Driver.lineLoop Driver.GL.step {}; return 0
+  | ["san"] => Driver.lineLoop (fun (_ : Unit) ws => ((), Driver.San.step ws)) (); return 0
   | ["deps"] => Driver.lineLoop (fun (_ : Unit) ws => ((), Driver.Deps.step ws)) (); return 0
   | ["wt"] => Driver.lineLoop Driver.Prim.wtStep (); return 0
   | _ => IO.eprintln "usage: driver <enc|prim|wt>"; return 2
